@@ -1394,7 +1394,11 @@ func hangResult(sc Scenario, prefix []int, scheduled bool) (*vrt.Result, *result
 		buf := make([]byte, 4<<20)
 		fmt.Fprintf(os.Stderr, "HANG %s\n%s\n", sc, buf[:runtime.Stack(buf, true)])
 	}
-	return &vrt.Result{Choices: prefix}, &result{fatal: true, verdicts: []verdict{{"hang/" + sc.opsKey(),
+	sig := "hang/" + sc.opsKey()
+	if scheduled {
+		sig = "hang/scheduled-execution-stuck-outside-the-scheduler" // one class: every replay costs the watchdog
+	}
+	return &vrt.Result{Choices: prefix}, &result{fatal: true, verdicts: []verdict{{sig,
 		"the execution did not finish within the real-time watchdog: goroutines are blocked outside the scheduler (e.g. on a mutex while the shard is opened, closed or read sequentially)"}}}
 }
 
@@ -1840,7 +1844,7 @@ func TestCheck(t *testing.T) {
 			defer runtime.GOMAXPROCS(old)
 			r, res := runScheduled(t, cs.Scenario, cs.Wide, cs.Choices)
 			if hung.Load() {
-				o := "hang/" + cs.Scenario.opsKey() + ": " + res.verdicts[0].msg
+				o := res.verdicts[0].sig + ": " + res.verdicts[0].msg
 				hangSeen[ckey] = o
 				return true, o
 			}
